@@ -50,6 +50,9 @@ pub enum Frontend {
 /// (MAX_RADIO_POWER, ANTENNA_GAIN) of the simulated boards (associated consts of the radio type).
 pub const BOARDS: [(u8, i8); 4] = [(14, 0), (22, 3), (30, -2), (5, 0)];
 
+/// Radio-buffer size (const generic N) of the "small buffer" device variant.
+pub const SMALL_N: usize = 64;
+
 #[derive(Clone, Debug, PartialEq, Eq, Serialize, Deserialize)]
 pub struct WorldCfg {
     pub region: RegionId,
@@ -75,6 +78,9 @@ pub struct WorldCfg {
     pub key_seed: u64,
     /// base seed of the device RNG (re-seeded per operation from (dev_seed, op index))
     pub dev_seed: u64,
+    /// async front-ends: instantiate the device with a radio buffer of SMALL_N bytes (board 0)
+    #[serde(default)]
+    pub small_buffer: bool,
 }
 
 impl WorldCfg {
@@ -93,6 +99,7 @@ impl WorldCfg {
             fcnt_down0: None,
             key_seed: 1,
             dev_seed: 1,
+            small_buffer: false,
         }
     }
 }
@@ -545,6 +552,9 @@ impl Shrinkable for MacCase {
             fields.push(c);
             let mut c = self.cfg.clone();
             c.join_bias = None;
+            fields.push(c);
+            let mut c = self.cfg.clone();
+            c.small_buffer = false;
             fields.push(c);
             let mut c = self.cfg.clone();
             c.fcnt_up0 = 0;
